@@ -7,6 +7,7 @@ import (
 	"bytes"
 	"fmt"
 	"math"
+	"strings"
 	"testing"
 
 	"github.com/bokysan/socketace/v2/internal/util/enc"
@@ -34,6 +35,7 @@ type kase struct {
 	Codec string `json:"codec"`
 	Input []byte `json:"input"`
 	Gen   string `json:"gen"`
+	Then  []byte `json:"then,omitempty"` // hold family: the input encoded while Input's encoding is held
 }
 
 func forbidden(b byte) bool {
@@ -111,6 +113,36 @@ func evalEncode(r *mc.Run, c codec, in []byte, gen string, alphabet *[256]bool) 
 	}
 }
 
+// evalHold: the encoding of a is kept while b is encoded and decoded; it must not change.
+func evalHold(r *mc.Run, c codec, a, b []byte, gen string) {
+	r.Eval(1)
+	r.Transition(4)
+	name := c.e.Name()
+	k := kase{Codec: name, Input: append([]byte{}, a...), Gen: gen, Then: append([]byte{}, b...)}
+	defer func() {
+		if p := recover(); p != nil {
+			r.Fail("hold-panic|"+name, fmt.Sprintf("%s: encode A, encode B, decode A's encoding panicked: %v", name, p), len(a)+len(b), k)
+		}
+	}()
+	encA := c.e.Encode(a)
+	snapshot := append([]byte{}, encA...)
+	backA1, errA1 := c.e.Decode(append([]byte{}, encA...))
+	encB := c.e.Encode(b)
+	c.e.Decode(append([]byte{}, encB...))
+	outcome := "kept"
+	backA2, errA2 := c.e.Decode(append([]byte{}, encA...))
+	switch {
+	case !bytes.Equal(encA, snapshot):
+		outcome = "changed"
+		r.Fail("encoding-changed-while-held|"+name, fmt.Sprintf("%s: the encoding of a %d-byte input changed after the codec encoded a %d-byte input (was % x, is % x)", name, len(a), len(b), trunc(snapshot), trunc(encA)), len(a)+len(b), k)
+	case (errA1 == nil) != (errA2 == nil) || !bytes.Equal(backA1, backA2):
+		outcome = "decodes-differently"
+		r.Fail("encoding-decodes-differently-later|"+name, fmt.Sprintf("%s: the same encoding of a %d-byte input decoded differently before and after the codec handled a %d-byte input", name, len(a), len(b)), len(a)+len(b), k)
+	}
+	r.State(mc.Hash(name, "hold", outcome))
+	r.Nontrivial(mc.Hash(name, gen))
+}
+
 func trunc(b []byte) []byte {
 	if len(b) > 24 {
 		return b[:24]
@@ -162,6 +194,8 @@ func TestCheck(t *testing.T) {
 				var a [256]bool
 				if k.Gen == "decode" {
 					evalDecode(r, c, k.Input)
+				} else if strings.HasPrefix(k.Gen, "hold-") {
+					evalHold(r, c, k.Input, k.Then, k.Gen)
 				} else {
 					evalEncode(r, c, k.Input, k.Gen, &a)
 				}
@@ -261,6 +295,20 @@ func TestCheck(t *testing.T) {
 			})
 			if ci == 0 {
 				r.Sample(map[string]any{"codec": c.e.Name(), "decode_alphabet_size": len(al)})
+			}
+		}
+	}
+	// an encoding must stay valid while the codec is used for something else: encode A, encode B
+	// (and decode B's encoding), then A's encoding must still decode to A - every ordered pair of
+	// a small input set, per codec
+	holdSet := [][]byte{{}, {0}, {0xFF}, pattern(3, 7), pattern(3, 8), pattern(1, 15), pattern(3, 64), pattern(0, 64), pattern(3, 300), pattern(2, 1024)}
+	for _, c := range codecs {
+		for ai, a := range holdSet {
+			for bi, b := range holdSet {
+				if r.Mine(idx) {
+					evalHold(r, c, a, b, fmt.Sprintf("hold-%d-%d", ai, bi))
+				}
+				idx++
 			}
 		}
 	}
